@@ -312,8 +312,20 @@ class frame_gcc:
         yield "frame", eq(s.focus_part, old.focus_part)
 
 
+def _clipped_window(child, rows):
+    """Rows of a too-tall flow part's canvas that are cut off above the `rows` rows shown (contract of `Filler.render`,
+    C09_geometry.py): none, unless the part's cursor would otherwise fall below the window."""
+    if is_none(child.cursor) or rows <= 0 or val(child.cursor)[1] < rows:
+        return 0
+    return val(child.cursor)[1] - rows + 1
+
+
 @contract(FR + "Frame.render", property=("C09", "C01", "C08"), inline=FINL, replayable=False)
 class frame_render:
+    """Every size with at least one row and one column: also the sizes at which header and footer do not fit
+    (hrows + frows >= maxrow), where `frame_top_bottom` trims them and `render` draws a trimmed flow part through
+    `Filler(part, 'top' | 'bottom').render((maxcol, trimmed rows), ...)` (contracts `Filler.__init__` / `Filler.render`
+    in C09_geometry.py, used here at the call sites)."""
     self_shape = FRAME
     params = dict(size=BOXSIZE, focus=Bool)
     result = CCANVAS
@@ -321,17 +333,18 @@ class frame_render:
     raises = ()
 
     def requires(s, a):
-        return both(_frame_requires(s, a, a.focus), a.size[0] >= 1)
+        # (a box without rows has nothing in it: CanvasCombine([]) is a 0 x 0 canvas whatever maxcol is)
+        return both(size_ok(a.size), a.size[0] >= 1, a.size[1] >= 1)
 
     def ensures(old, s, a, r):
         W = PROTOCOLS["Widget"]
         maxcol, maxrow = a.size
-        htrim, ftrim = frame_geometry(old, a.size, a.focus)
+        (htrim, ftrim), (hrows, frows) = FTB.spec_value(old, size=a.size, focus=a.focus)
         yield "size", both(r.ncols == maxcol, r.nrows == maxrow)
         rc = calls("render")
         fp = old.focus_part
         # the parts that have rows are rendered top to bottom, each once, at its size of the shared geometry, and
-        # (C08) only the focus part with focus
+        # (C08) only the focus part with focus -- whether or not the part is trimmed
         want = []
         for part in PARTS:
             shown = (maxrow - htrim - ftrim if part == "body" else htrim if part == "header" else ftrim) > 0
@@ -348,7 +361,10 @@ class frame_render:
         if fp not in want:
             yield "a-focus-part-without-rows-shows-no-cursor", is_none(r.cursor)
         else:
-            yield "cursor-is-the-focus-parts-shifted-by-its-top-row", opt_eq_shift(r.cursor, child.cursor, 0, part_top(fp, a.size, htrim, ftrim))
+            # a trimmed focus part shows the window of its rows that keeps its cursor row
+            given, asked = (htrim, hrows) if fp == "header" else (ftrim, frows) if fp == "footer" else (0, 0)
+            cut = _clipped_window(child, given) if given < asked else 0
+            yield "cursor-is-the-focus-parts-shifted-by-its-top-row", opt_eq_shift(r.cursor, child.cursor, 0, part_top(fp, a.size, htrim, ftrim) - cut)
 
 
 # ------------------------------------------------------------------------------------------------ C08: the constructor
